@@ -10,7 +10,7 @@ PROPERTY = 'C17'
 RULE = ('One real ContactHandler (active or passive, 0-3 own bundles queued) against a scripted peer built on the '
         'independent RFC 9174 codec.  The script is a generated list of steps: proper handshake steps, proper transfers, '
         'proper ACKs of everything received ("behave") and single well-formed out-of-place messages chosen from a '
-        '17-letter alphabet (segment/ACK/refuse/SESS_TERM/KEEPALIVE before establishment, ACK/refuse naming an own queued transfer before establishment, contact header with wrong '
+        '18-letter alphabet (segment/ACK/refuse/SESS_TERM/KEEPALIVE before establishment, ACK/refuse naming an own queued transfer before establishment, a final ACK for an own transfer whose END segment is still unsent (outgoing pipe with a small capacity), contact header with wrong '
         'magic or version, second contact header / SESS_INIT, non-START segment without transfer, segment of another '
         'id mid-transfer, START while a transfer is open, ACK/refuse for unknown ids, unknown message type).  All '
         'sequences of up to 2 (quick) / 3 (thorough) adversarial letters are enumerated per phase (before contact, '
@@ -32,11 +32,11 @@ ASSUMPTIONS = [
 EXHAUSTIVE_PART = 'all sequences of <= 2 (quick) / <= 3 (thorough) adversarial letters in each of three phases, active and passive'
 
 LETTERS = ['seg-start', 'seg-mid', 'seg-end', 'ack', 'ack-end', 'refuse', 'term', 'term-reply', 'keepalive', 'reject',
-           'unknown-type', 'second-ch', 'second-init', 'seg-other-id', 'refuse-own', 'ack-own', 'ack-end-own']
+           'unknown-type', 'second-ch', 'second-init', 'seg-other-id', 'refuse-own', 'ack-own', 'ack-end-own', 'ack-end-early']
 MUST_ANSWER_ALWAYS = {'unknown-type'}
 MUST_ANSWER_BEFORE_SESSION = {'seg-start', 'seg-mid', 'seg-end', 'ack', 'ack-end', 'refuse', 'term', 'term-reply',
                               'seg-other-id', 'refuse-own', 'ack-own', 'ack-end-own'}
-MUST_ANSWER_ESTABLISHED = {'seg-mid', 'seg-end', 'ack', 'ack-end', 'refuse', 'seg-other-id'}
+MUST_ANSWER_ESTABLISHED = {'seg-mid', 'seg-end', 'ack', 'ack-end', 'refuse', 'seg-other-id', 'ack-end-early'}
 
 
 def prepare():
@@ -101,7 +101,7 @@ def scripts(draw):
         return ['adv', draw(st.sampled_from(LETTERS))]
     if phase == 'contact':
         if draw(st.booleans()):
-            steps.append(['ch', draw(st.sampled_from(['bad-magic', 'version-3', 'version-5']))])
+            steps.append(['ch', draw(st.sampled_from(['bad-magic', 'version-3', 'version-5']))] + (['joined'] if draw(st.booleans()) else []))
         else:
             steps += [adversarial() for _ in range(n_adv)]
         steps.append(['ch', 'ok'])
@@ -133,6 +133,9 @@ def strategy(tier):
         'own': st.lists(st.tuples(st.sampled_from([1, 5, 20, 64]), st.integers(0, 99)).map(list), max_size=3),
         'seg': st.sampled_from([3, 7, 64, 1000]),
         'script': scripts(),
+        # capacity of the endpoint's outgoing TCP direction: with a small one its own transfers are still partly unsent
+        # when the peer misbehaves (the peer reads only when it "behaves")
+        'cap': st.sampled_from([None, None, 30, 120]),
     })
 
 
@@ -150,8 +153,15 @@ def enumerate_cases(tier):
                     else:
                         script = [['ch', 'ok'], ['init'], ['open-xfer', 4]] + adv + [['close-xfer', 2], ['behave']]
                     yield {'active': active, 'own': [[20, 1]], 'seg': 7, 'script': script}
+                    if phase == 'estab' and length == 1:
+                        # own transfers held back by a full pipe: a second one is queued but not yet sent
+                        # (more than the 2 x 10240 octets the connection buffers: the session layer has not produced the
+                        # end of the first transfer, the second has not started)
+                        yield {'active': active, 'own': [[40000, 1], [20, 2]], 'seg': 1000, 'mru': 1000, 'cap': 2000,
+                               'script': [['ch', 'ok'], ['init']] + adv + [['behave']]}
         for bad in ('bad-magic', 'version-3', 'version-5'):
             yield {'active': active, 'own': [[5, 1]], 'seg': 7, 'script': [['ch', bad], ['ch', 'ok'], ['init'], ['behave']]}
+            yield {'active': active, 'own': [[5, 1]], 'seg': 7, 'script': [['ch', bad, 'joined'], ['ch', 'ok'], ['init'], ['behave']]}
 
 
 def pinned_cases():
@@ -234,7 +244,8 @@ def execute(case):
     active = bool(case['active'])
     seg = max(1, int(case.get('seg', 7)))
     cfg = tw.make_config('dtn://real/', segment_size_tx_initial=seg)
-    world = tw.World(cfg, scripted=True, real_is_passive=not active)
+    cap = case.get('cap')
+    world = tw.World(cfg, scripted=True, real_is_passive=not active, cap_ab=cap if active else None, cap_ba=None if active else cap)
     end = world.real
     hdl = end.hdl
     own = []
@@ -266,8 +277,17 @@ def execute(case):
             elif which == 'version-5':
                 msg['version'] = 5
             was_in_conn = hdl._in_conn
+            if which != 'ok' and len(step) > 2 and step[2] == 'joined':
+                # the refused header, a proper header and a SESS_INIT arrive in one read
+                out.label('bad-contact-header-joined')
+                msg = {'t': 'RAW', 'data': (r.encode(msg) + r.encode({'t': 'CH', 'magic': r.MAGIC.hex(), 'version': 4, 'flags': 0})
+                                            + r.encode({'t': 'SESS_INIT', 'keepalive': 0, 'segment_mru': 50, 'transfer_mru': 2 ** 40,
+                                                        'nodeid': 'dtn://peer/', 'ext': []})).hex()}
             peer.send(msg)
             new = peer.pump()
+            if which != 'ok' and not was_in_conn and hdl._in_conn:
+                out.fail('negotiates-after-refusing', 'after refusing a contact header (%s) the endpoint went on negotiating with '
+                         'octets that followed it (state %s, closed %s)' % (which, hdl._state, end.sock.closed))
             if which != 'ok' and not was_in_conn:
                 out.label('bad-contact-header')
                 answered = end.sock.closed or any(m['t'] in ('SESS_TERM',) for m in new)
@@ -277,7 +297,7 @@ def execute(case):
             elif which == 'ok':
                 peer.sent_ch = True
         elif kind == 'init':
-            peer.send({'t': 'SESS_INIT', 'keepalive': 0, 'segment_mru': 50, 'transfer_mru': 2 ** 40,
+            peer.send({'t': 'SESS_INIT', 'keepalive': 0, 'segment_mru': int(case.get('mru') or 50), 'transfer_mru': 2 ** 40,
                        'nodeid': 'dtn://peer/', 'ext': []})
             peer.sent_init = True
             peer.pump()
@@ -287,7 +307,23 @@ def execute(case):
             if letter.endswith('-own') and (in_sess_before or not own):
                 # inside the session these would be the peer's legitimate say about our transfer, not out of place
                 letter = letter[:-4]
-            msg = letter_msg(letter, counter, int(own[0][0]) if own else 1, len(own[0][1]) if own else 0)
+            early = None
+            if letter == 'ack-end-early':
+                # a final ACK for an own transfer whose END segment has not been written yet
+                if established:
+                    ended = set(m['id'] for m in peer.pump() or peer.rx_msgs if m['t'] == 'XFER_SEGMENT' and m['flags'] & 1)
+                    ended |= set(m['id'] for m in peer.rx_msgs if m['t'] == 'XFER_SEGMENT' and m['flags'] & 1)
+                    # (not yet produced by the session layer at all: a segment waiting in the connection buffer behind
+                    # a full pipe counts as sent, the endpoint cannot be asked to know how far TCP got)
+                    early = next(((bid, data) for bid, data in own if int(bid) not in ended and int(bid) in hdl._tx_map
+                                  and hdl._tx_map[int(bid)] not in hdl._tx_pend_ack), None)
+                if early is None:
+                    letter = 'ack-end'
+            if early is not None:
+                msg = {'t': 'XFER_ACK', 'flags': 1, 'id': int(early[0]), 'length': len(early[1])}
+                out.label('ack-end-before-end-was-sent')
+            else:
+                msg = letter_msg(letter, counter, int(own[0][0]) if own else 1, len(own[0][1]) if own else 0)
             if letter == 'seg-other-id' and peer.open_tid is None and established:
                 letter_eff = 'seg-mid'      # no open transfer: it is simply a segment without a transfer
             else:
@@ -317,6 +353,15 @@ def execute(case):
                     adv_established_pending = True
             else:
                 out.label('adv-early:' + letter)
+            if early is not None:
+                fin_now = [e for e in end.signals('send_bundle_finished') if str(e['args'][0]) == early[0] and e['args'][2] == 'success']
+                if fin_now:
+                    out.fail('success-before-sent', 'own transfer %s was reported as sent successfully on a final ACK that arrived '
+                             'before its END segment was written' % early[0])
+            if must and cap is not None and not end.sock.closed:
+                # the answer may be waiting behind a full pipe: let the peer read before judging
+                _peer_reads(peer)
+                new = peer.rx_msgs[before_len:]
             if must:
                 answered = end.sock.closed or any(m['t'] in ('MSG_REJECT', 'SESS_TERM') for m in new)
                 if not answered:
@@ -391,11 +436,24 @@ def execute(case):
     return out
 
 
+def _peer_reads(peer):
+    ''' The peer reads what arrived (this frees the endpoint's outgoing pipe when it has a capacity) until nothing
+    more comes.  :return: True if anything was read. '''
+    read = False
+    for _ in range(200):
+        if not peer.world.rx_pipe.readable:
+            break
+        del peer.world.rx_pipe.readable[:]
+        read = True
+        peer.pump()
+    return read
+
+
 def _behave(peer):
     ''' Acknowledge every not yet acknowledged segment; answer SESS_TERM.  :return: True if something was sent. '''
     from vlib import ref9174 as r
     peer.pump()
-    did = False
+    did = _peer_reads(peer)
     segs = [m for m in peer.rx_msgs if m['t'] == 'XFER_SEGMENT']
     cum = {}
     for idx, seg in enumerate(segs):
